@@ -317,7 +317,8 @@ impl TerminalRenderer {
                 continue;
             }
 
-            // erase and damage area under old image
+            // erase and damage area under old image, cells that are already covered by
+            // an image of this frame stay ignored (they are hidden by that image)
             if let CellKind::Image(image) = &old.kind {
                 term.execute(TerminalCommand::ImageErase(image.clone(), Some(pos)))?;
                 let size = image.size_cells(self.size.pixels_per_cell());
@@ -326,7 +327,10 @@ impl TerminalRenderer {
                         pos.row..pos.row + size.height,
                         pos.col..pos.col + size.width,
                     )
-                    .fill(CellMark::Damaged);
+                    .fill_with(|_, mark| match mark {
+                        CellMark::Ignored => CellMark::Ignored,
+                        _ => CellMark::Damaged,
+                    });
             }
 
             // record image to be rendered, and mark area under the image to be ignored
